@@ -43,6 +43,7 @@ type config struct {
 	preopen            []int // sizes of the files that exist in the initial state (one per slot), saves depth
 	depth              map[string]int
 	baseFaults         bool // Engine A, "quotaconc": every base pool call may fail (one deviation each)
+	concSetup          []sop // Engine A: calls made one after another before the threads start
 }
 
 func (c *config) hasQuota() bool { return c.maxFiles > 0 }
@@ -429,8 +430,12 @@ func (s *sys) doClose(c rep, slot int) {
 // (anything else is an isolation breach), demands unchanged contents outside
 // it, and then adopts what it saw as the new model.
 func (s *sys) resync(c rep, fs *fileSt, op string, lo, hi, target int, newVals []byte, newOff int) {
-	saved := s.fl.suspend()
-	defer s.fl.resume(saved)
+	if s.x == nil {
+		// (Engine A scenarios arm no faults in s.fl, and their threads
+		// read it concurrently.)
+		saved := s.fl.suspend()
+		defer s.fl.resume(saved)
+	}
 	old := fs.content
 	szl, err := fs.f.Len()
 	sz := int(szl)
